@@ -435,12 +435,19 @@ class Program:
         self._children = None
 
     @classmethod
-    def load(cls, repo=None, variant="dev", normalize=True):
+    def load(cls, repo=None, variant="dev", normalize=True, view="primary"):
+        """view 'primary': the program as compiled, helpers that are not on the pinned tree inlined into their callers;
+        view 'desugared': additionally std combinators replaced by the match / loop they abbreviate and the closures
+        handed to them inlined (analysis/desugar.py).  Both are behaviour-preserving pictures of the same code."""
         raw = _facts.load_raw(repo or _facts.REPO, variant)
         P = cls(raw)
+        P.view = view
         if normalize and not os.environ.get("VERIF_NO_NORMALIZE"):
             from . import inline
             inline.normalize_program(P)
+        if view == "desugared":
+            from . import desugar
+            desugar.desugar_program(P)
         return P
 
     def body(self, key):
